@@ -31,7 +31,7 @@ def conv(prog):
             res.setdefault("get_insertion_index", b)
         elif ins[0] == "&std::ops::Range<usize>" and out == "lsp_types::Range":
             res.setdefault("as_pos_range", b)
-        elif ins[0] == "&lsp_types::Range" and out == "std::ops::Range<usize>":
+        elif ins[0] in ("&lsp_types::Range", "lsp_types::Range") and out == "std::ops::Range<usize>":
             res.setdefault("as_index_range", b)
     _cache[key] = res
     return res
